@@ -172,31 +172,48 @@ impl<'b, 'tx> Iterator for Cursor<'b, 'tx> {
     fn next(&mut self) -> Option<Self::Item> {
         if self.stack.is_empty() {
             self.seek_first();
-        } else if self.next_called {
-            loop {
-                {
-                    let b = self.bucket.borrow();
-                    if b.deleted {
-                        panic!("Cannot get data from a deleted bucket.");
-                    }
-                    let elem = self.stack.last_mut().unwrap();
-                    let page_node = b.page_node(elem.id);
-                    if elem.index + 1 >= page_node.len() {
-                        if self.stack.len() == 1 {
-                            return None;
-                        }
-                        self.stack.pop();
-                        continue;
-                    } else {
-                        elem.index += 1;
-                    }
-                }
-                self.seek_first();
-                break;
-            }
+        } else if self.next_called && !self.advance() {
+            return None;
         }
         self.next_called = true;
-        self.current()
+        // A leaf emptied by deletes in this transaction has nothing under the cursor:
+        // keep moving until we find data or run out of pages.
+        loop {
+            if let Some(data) = self.current() {
+                return Some(data);
+            }
+            if !self.advance() {
+                return None;
+            }
+        }
+    }
+}
+
+impl<'b, 'tx> Cursor<'b, 'tx> {
+    // Moves the cursor to the next element (in the next leaf if necessary).
+    // Returns false if there is nothing after the current position.
+    fn advance(&mut self) -> bool {
+        loop {
+            {
+                let b = self.bucket.borrow();
+                if b.deleted {
+                    panic!("Cannot get data from a deleted bucket.");
+                }
+                let elem = self.stack.last_mut().unwrap();
+                let page_node = b.page_node(elem.id);
+                if elem.index + 1 >= page_node.len() {
+                    if self.stack.len() == 1 {
+                        return false;
+                    }
+                    self.stack.pop();
+                    continue;
+                } else {
+                    elem.index += 1;
+                }
+            }
+            self.seek_first();
+            return true;
+        }
     }
 }
 
